@@ -37,7 +37,9 @@ func init() {
 
 // --- generation -------------------------------------------------------------
 
-var c02Names = []string{"x", "y", "item", "body", "message", "iq", "presence", "error", "query", "show", "subject", "data"}
+var c02Names = []string{"x", "y", "item", "body", "message", "iq", "presence", "error", "query", "show", "subject", "data",
+	// names HTML gives a special meaning to (void elements): in XML they are names like any other
+	"link", "meta", "br", "img", "input", "base", "param", "hr"}
 var c02NS = []string{"unknown:ns", "urn:example:a", "http://example.org/b#c", "jabber:client", "jabber:x:data"}
 var c02Texts = []string{"", "t", "some text", "a &amp; b", "&lt;tag&gt;", "ünï ✓ 日本", "]]&gt;", "  ", "&#x41;&#10;", "q'\""}
 
